@@ -352,12 +352,41 @@ func (r *transport) handleCacheHit(
 		age := freshness.Age.Value + r.clock.Since(freshness.Age.Timestamp)
 		staleFor := age - freshness.UsefulLife
 		if staleFor >= 0 && staleFor < swr {
-			return r.handleStaleWhileRevalidate(req, stored, urlKey, freshness, ccReq)
+			return r.handleStaleWhileRevalidate(
+				req,
+				stored,
+				urlKey,
+				freshness,
+				ccReq,
+				refs,
+				refIndex,
+			)
 		}
 	}
 
 	req = withConditionalHeaders(req, stored.Data.Header)
 	resp, start, end, err := r.roundTripTimed(req)
+	return r.finishValidation(
+		req, resp, err, start, end,
+		stored, urlKey, freshness, ccReq, refs, refIndex,
+	)
+}
+
+// finishValidation handles the origin's answer to a validation request, in
+// the foreground and in the background alike, and writes a stored response
+// freshened by a 304 back to the store (RFC 9111 §4.3.4).
+func (r *transport) finishValidation(
+	req *http.Request,
+	resp *http.Response,
+	err error,
+	start, end time.Time,
+	stored *internal.Response,
+	urlKey string,
+	freshness *internal.Freshness,
+	ccReq internal.CCRequestDirectives,
+	refs internal.ResponseRefs,
+	refIndex int,
+) (*http.Response, error) {
 	ctx := internal.RevalidationContext{
 		URLKey:    urlKey,
 		Start:     start,
@@ -368,7 +397,21 @@ func (r *transport) handleCacheHit(
 		RefIndex:  refIndex,
 		Freshness: freshness,
 	}
-	return r.vrh.HandleValidationResponse(ctx, req, resp, err)
+	out, herr := r.vrh.HandleValidationResponse(ctx, req, resp, err)
+	if herr == nil && err == nil && resp != nil &&
+		resp.StatusCode == http.StatusNotModified && out == stored.Data &&
+		stored.Data.StatusCode != http.StatusNotModified {
+		// The 304 was merged into the stored response: store the freshened
+		// response (new header fields, age restarting from the 304) so that
+		// later requests are served from it instead of revalidating again.
+		ccStored := internal.ParseCCResponseDirectives(stored.Data.Header)
+		if r.ce.CanStoreResponse(stored.Data, ccReq, ccStored) {
+			_ = r.rs.StoreResponse(req, stored.Data, urlKey, refs, start, end, refIndex)
+			// Storing strips hop-by-hop fields (incl. any named by Connection).
+			internal.CacheStatusRevalidated.ApplyTo(stored.Data.Header)
+		}
+	}
+	return out, herr
 }
 
 func (r *transport) serveFromCache(
@@ -409,6 +452,8 @@ func (r *transport) handleStaleWhileRevalidate(
 	urlKey string,
 	freshness *internal.Freshness,
 	ccReq internal.CCRequestDirectives,
+	refs internal.ResponseRefs,
+	refIndex int,
 ) (*http.Response, error) {
 	req2 := req.Clone(req.Context())
 	req2 = withConditionalHeaders(req2, stored.Data.Header)
@@ -425,7 +470,7 @@ func (r *transport) handleStaleWhileRevalidate(
 	)
 	internal.SetAgeHeader(stored.Data, r.clock, freshness.Age)
 	internal.CacheStatusStale.ApplyTo(stored.Data.Header)
-	go r.backgroundRevalidate(req2, stored, urlKey, freshness, ccReq)
+	go r.backgroundRevalidate(req2, stored.ID, urlKey, freshness, ccReq, refs, refIndex)
 	r.logger.LogCacheStaleRevalidate(req, urlKey, internal.MiscFunc(func() internal.Misc {
 		return internal.Misc{
 			CCReq:     ccReq,
@@ -436,12 +481,17 @@ func (r *transport) handleStaleWhileRevalidate(
 	return stored.Data, nil
 }
 
+// backgroundRevalidate validates the stored response identified by storedID
+// against the origin. It works on its own copy of the entry, loaded from the
+// store: the response object already handed to the caller is never touched.
 func (r *transport) backgroundRevalidate(
 	req *http.Request,
-	stored *internal.Response,
+	storedID string,
 	urlKey string,
 	freshness *internal.Freshness,
 	ccReq internal.CCRequestDirectives,
+	refs internal.ResponseRefs,
+	refIndex int,
 ) {
 	ctx, cancel := context.WithTimeout(req.Context(), r.swrTimeout)
 	defer cancel()
@@ -449,6 +499,11 @@ func (r *transport) backgroundRevalidate(
 	errc := make(chan error, 1)
 	go func() {
 		defer close(errc)
+		stored, err := r.cache.Get(storedID, req)
+		if err != nil {
+			errc <- err
+			return
+		}
 		//nolint:bodyclose // The response is not used, so we don't need to close it.
 		resp, start, end, err := r.roundTripTimed(req)
 		if err != nil {
@@ -461,16 +516,11 @@ func (r *transport) backgroundRevalidate(
 			return
 		default:
 		}
-		revalCtx := internal.RevalidationContext{
-			URLKey:    urlKey,
-			Start:     start,
-			End:       end,
-			CCReq:     ccReq,
-			Stored:    stored,
-			Freshness: freshness,
-		}
 		//nolint:bodyclose // The response is not used, so we don't need to close it.
-		_, err = r.vrh.HandleValidationResponse(revalCtx, req, resp, nil)
+		_, err = r.finishValidation(
+			req, resp, nil, start, end,
+			stored, urlKey, freshness, ccReq, refs, refIndex,
+		)
 		errc <- err
 	}()
 
